@@ -213,9 +213,13 @@ class P(Prop):
         return case
 
     def rand_ident(self, rng):
-        return rng.choice(["a", "b", "n1", "N2", "17", "x_9", "node-3", "k"]) + rng.choice(["", "", "0", "7", "z"])
+        """identifiers as real files deliver them: names, numeric strings (plain, zero-padded, negative, decimal), mixed"""
+        return rng.choice(["a", "b", "n1", "N2", "17", "x_9", "node-3", "k", "0", "007", "-1", "1.0", "1e3", "42"]) + rng.choice(["", "", "0", "7", "z"])
 
-    def net_case(self, rng, sep=None, h=None, hdrR=None, srid=None):
+    def net_case(self, rng, sep=None, h=None, hdrR=None, srid=None, loose=None):
+        """a small network. `loose` (half of the cases): the network is not topologically exact - an edge attached to a node
+        that an earlier edge registered may end a little beside that node's position (end nodes merged within a tolerance, as
+        map data delivers them), so several edges share a node id while their end vertices differ"""
         srid = srid or rng.choice(["ENU", "ENU", "GEO"])
         q = 3 if srid == "ENU" else 8
         nn = rng.choice([2, 3, 4])
@@ -224,21 +228,38 @@ class P(Prop):
             s = self.rand_ident(rng)
             if s not in names:
                 names.append(s)
+        ok = lambda p: all(v == 0 or abs(v) >= 10 ** (q - 4) for v in p)    # repr() stays positional
 
         def pt():
             while True:
                 p = [self.rand_coord(rng, srid, 0, q), self.rand_coord(rng, srid, 1, q)]
-                if all(v == 0 or abs(v) >= 10 ** (q - 4) for v in p):    # repr() stays positional
+                if ok(p):
                     return p
         pos = {s: pt() for s in names}
-        ne = rng.choice([1, 2, 3, 4])
+        loose = (rng.random() < 0.5) if loose is None else loose
+
+        def end(s):
+            """end vertex of an edge at node s: on the node, or (loose networks) up to a few units beside it"""
+            if not loose or rng.random() < 0.4:
+                return pos[s]
+            for _ in range(20):
+                p = [pos[s][0] + rng.choice([0, 1, -1, 7, -250, 400, 1000, -12345]), pos[s][1] + rng.choice([0, 1, -1, -7, 250, -400, 500, 54321])]
+                if srid == "GEO":
+                    p = [max(-180 * 10 ** q, min(180 * 10 ** q, p[0])), max(-90 * 10 ** q, min(90 * 10 ** q, p[1]))]
+                if ok(p) and p != pos[s]:
+                    return p
+            return pos[s]
+        ne = rng.choice([1, 2, 3, 4, 5])
         edges = []
         for i in range(ne):
             a = rng.choice(names)
             b = rng.choice(names)
             mid = [pt() for _ in range(rng.choice([0, 0, 1, 2, 3]))]
-            edges.append({"id": "e%d" % i if rng.random() < 0.7 else self.rand_ident(rng) + "_%d" % i, "src": a, "tgt": b,
-                          "orient": rng.choice([0, 1, -1]), "geom": [pos[a]] + mid + [pos[b]]})
+            e = {"id": "e%d" % i if rng.random() < 0.6 else self.rand_ident(rng) + "_%d" % i, "src": a, "tgt": b,
+                 "orient": rng.choice([0, 1, -1]), "geom": [end(a)] + mid + [end(b)]}
+            if rng.random() < 0.3:
+                e["w"] = rng.choice([0, 1, 2.5, 1000, -1])        # a weight set by the user (the writer does not write it)
+            edges.append(e)
         h = rng.choice([0, 1, 1]) if h is None else h
         return {"kind": "net", "srid": srid, "q": q, "sep": sep or rng.choice([",", ";", " ", "\t", "|"]), "h": h,
                 "hdrR": h if hdrR is None else hdrR, "posdir": 3, "edges": edges}
@@ -406,6 +427,7 @@ class P(Prop):
             t["domain"] = self.csv_domain(case) is None
         if k in ("net",):
             t["sep"] = case["sep"]; t["h"] = case["h"]; t["edges"] = len(case["edges"])
+            t["exact_topology"] = self.net_exact(case)
         if k == "gpx":
             t["srid"] = case["srid"]
         if k == "time":
@@ -414,6 +436,16 @@ class P(Prop):
             t["ops"] = "-".join(o["kind"] for o in case["ops"])
             t["fmt"] = case["fmt"]
         return t
+
+    @staticmethod
+    def net_exact(case):
+        """every edge ends exactly on the position its end nodes were registered with (first mention)"""
+        pos = {}
+        for e in case["edges"]:
+            for nid, p in ((e["src"], e["geom"][0]), (e["tgt"], e["geom"][-1])):
+                if pos.setdefault(nid, p) != p:
+                    return False
+        return True
 
     def nontrivial(self, case):
         k = case["kind"]
@@ -642,6 +674,8 @@ class P(Prop):
             trk = self.Track([self.Obs(C(cval(p[0], q), cval(p[1], q), 0.0), self.ObsTime()) for p in e["geom"]])
             ed = self.Edge(e["id"], trk)
             ed.orientation = e["orient"]
+            if "w" in e:
+                ed.weight = e["w"]
             g = e["geom"]
             net.addEdge(ed, self.Node(e["src"], C(cval(g[0][0], q), cval(g[0][1], q), 0.0)),
                         self.Node(e["tgt"], C(cval(g[-1][0], q), cval(g[-1][1], q), 0.0)))
